@@ -86,25 +86,25 @@ type Violation struct {
 
 // Result is what a worker run hands back to the driver.
 type Result struct {
-	Property    string            `json:"property"`
-	Tier        string            `json:"tier"`
-	Seed        uint64            `json:"seed"`
-	Evaluations int64             `json:"evaluations"`
-	Classes     map[string]int64  `json:"classes"`
-	Nontrivial  int               `json:"distinct_nontrivial"`
-	Rule        string            `json:"rule"`
-	Floor       int64             `json:"floor"`
-	Required    map[string]int64  `json:"required_counters,omitempty"`
-	Exhaustive  []string          `json:"exhaustive_subspaces,omitempty"`
-	Violations  []*Violation      `json:"violations"`
-	Counters    map[string]int64  `json:"counters"`
-	Samples     []interface{}     `json:"samples"`
-	SelfTest    []string          `json:"ref_selftest"`
-	Notes       []string          `json:"notes,omitempty"`
-	Trusted     []string          `json:"trusted_base,omitempty"`
-	Assumptions []string          `json:"assumptions,omitempty"`
+	Property    string                 `json:"property"`
+	Tier        string                 `json:"tier"`
+	Seed        uint64                 `json:"seed"`
+	Evaluations int64                  `json:"evaluations"`
+	Classes     map[string]int64       `json:"classes"`
+	Nontrivial  int                    `json:"distinct_nontrivial"`
+	Rule        string                 `json:"rule"`
+	Floor       int64                  `json:"floor"`
+	Required    map[string]int64       `json:"required_counters,omitempty"`
+	Exhaustive  []string               `json:"exhaustive_subspaces,omitempty"`
+	Violations  []*Violation           `json:"violations"`
+	Counters    map[string]int64       `json:"counters"`
+	Samples     []interface{}          `json:"samples"`
+	SelfTest    []string               `json:"ref_selftest"`
+	Notes       []string               `json:"notes,omitempty"`
+	Trusted     []string               `json:"trusted_base,omitempty"`
+	Assumptions []string               `json:"assumptions,omitempty"`
 	Extra       map[string]interface{} `json:"extra,omitempty"`
-	Done        bool              `json:"done"`
+	Done        bool                   `json:"done"`
 }
 
 type Reporter struct {
